@@ -404,6 +404,15 @@ func checkC15(c *km.Ctx) {
 				}
 			}
 			r.Add("R-C15-2", km.FuncName(cp), "Commit is last", posOf(c, cm), "after Commit only nil or Commit's own error is returned", sprintf("%v", okAfter), okAfter)
+			// and success means committed: the synchronisation reports nil only after Commit (a run that decides
+			// there is "nothing to do" and returns nil leaves in the cache what the primary no longer has)
+			early := ""
+			for _, rc := range s.RetCases(cp) {
+				if km.IsNilConst(km.Unwrap(rc.Results[0])) && !km.InstrDominates(cm, rc.Ret) {
+					early = posOf(c, rc.Ret)
+				}
+			}
+			r.Add("R-C15-3", km.FuncName(cp), "success only after Commit", posOf(c, cm), "every return of a nil error is dominated by Commit", "nil returned at "+early, early == "")
 			// every result set that is copied was read to its end without error: rows.Close() does not report an
 			// iteration error, so a Commit reached without rows.Err() == nil can publish a truncated copy
 			nRows := 0
